@@ -1723,6 +1723,13 @@ class TenSym(PySym):
                 if all(rs_) or not any(rs_):
                     return rs_[0]       # decided on representative renderings of the formatted values (positive / negative / zero-or-small)
                 raise Unsupported("%s(%r, ..) depends on the value formatted: %r" % (cn, pat_, txt_))
+        if cn in ("chr", "ord") and len(n.args) == 1 and cn not in self.env:
+            v_ = self.pyval(A(0))
+            if cn == "chr" and isinstance(v_, int):
+                return chr(v_)
+            if cn == "ord" and isinstance(v_, str) and len(v_) == 1:
+                return ord(v_)
+            raise Unsupported("%s of %r" % (cn, v_))
         if cn == "locals" and not n.args and cn not in self.env:
             return {k_: v_ for k_, v_ in self.env.items() if not k_.startswith("__")}
         if cn == "format" and 1 <= len(n.args) <= 2 and cn not in self.funcs and cn not in self.env:
